@@ -43,7 +43,9 @@ func getSwapOutSenderStates() States {
 		State_SwapOutSender_SendRequest: {
 			Action: &SendMessageAction{},
 			Events: Events{
-				Event_ActionFailed:    State_SwapCanceled,
+				// The request may have reached the peer (also when this state is
+				// failed on recovery): tell it that the swap is off.
+				Event_ActionFailed:    State_SendCancel,
 				Event_ActionSucceeded: State_SwapOutSender_AwaitAgreement,
 			},
 			FailOnrecover: true,
@@ -55,7 +57,9 @@ func getSwapOutSenderStates() States {
 				Event_OnTimeout:            State_SendCancel,
 				Event_OnFeeInvoiceReceived: State_SwapOutSender_PayFeeInvoice,
 				Event_OnInvalid_Message:    State_SendCancel,
-				Event_ActionFailed:         State_SwapCanceled,
+				// Reached on recovery only (the action of this state cannot
+				// fail): the request is out, so the peer has to be told.
+				Event_ActionFailed: State_SendCancel,
 			},
 			FailOnrecover: true,
 		},
